@@ -361,10 +361,13 @@ def gen_atomic():
 CLOSE_SITES = [
     # (name, file, region start regex)
     ("tcp", "network/tcp_ops.rs", r'"" => \{'),
-    ("ws", "network/ws_ops.rs", r"fn on_close\b[^{]*\{"),
+    # (since fix 8d6b870 the websocket handler releases the session in `release`, called from on_close and from Drop)
+    ("ws", "network/ws_ops.rs", r"fn release\b[^{]*\{"),
+    ("ws-on-close", "network/ws_ops.rs", r"fn on_close\b[^{]*\{"),
+    ("ws-drop", "network/ws_ops.rs", r"fn drop\b[^{]*\{"),
     ("http", "network/http_ops.rs", r"fn process_commands\b[^{]*\{"),
 ]
-CLOSE_STEPS = [("unwatch-all", r'process_request\(\s*"unwatch-all"'), ("leave", r"process_leave_request\("), ("left", r"client\.left\(")]
+CLOSE_STEPS = [("unwatch-all", r'process_request\(\s*"unwatch-all"'), ("leave", r"process_leave_request\("), ("left", r"client\.left\("), ("release", r"self\.release\(")]
 
 def close_site(rel, start_re):
     text = src(rel)
